@@ -315,6 +315,11 @@ def cells(prop, tier):
     out.append(Cell(name='c15_batcher_mbs1_mcb2_short', sig='gaps: List[int], bt: int, rt: int, dur: int',
                     pre=['len(gaps) == 3 and gaps[0] == 0 and all(0 <= g <= 3 for g in gaps) and bt == 3 and 0 <= rt <= 2 and dur == 2'],
                     body='H.scen_batcher(gaps, bt, rt, dur, 1, 2, ("a", "b", "a"), ("class", "options"))', tier=q, timeout=600, family='batcher', weight=4))
+    # falsy but non-default option value: batch_timeout = 0 (default 0.05) must take effect as given in every form
+    for forms in (('class', 'options'), ('class', 'direct')):
+        out.append(Cell(name='c15_batcher_zero_timeout_%s' % forms[1], sig='gaps: List[int], rt: int, dur: int',
+                        pre=['len(gaps) == 3 and gaps[0] == 0 and 0 <= gaps[1] <= 2 and 0 <= gaps[2] <= 3 and 0 <= rt <= 2 and 0 <= dur <= 1'],
+                        body='H.scen_batcher(gaps, 0, rt, dur, 2, 1, ("a", "b", "a"), %r)' % (forms,), tier=q, timeout=600, family='batcher', weight=3))
     if tier != 'thorough':
         out = [c for c in out if c.tier == 'quick']
     out.append(Cell(name='c15_buffer_cpc', sig='pauses: List[int], t: int, dur: int, fails: List[bool]',
@@ -359,7 +364,7 @@ META = {'C15': {
                    'successive event loops (kept alive or dropped) and must batch each loop\'s calls independently on that loop.',
     'functions': [('aiuti/asyncio.py', 'async_background_batcher'), ('aiuti/asyncio.py', 'buffer_until_timeout'),
                   ('aiuti/asyncio.py', 'threadsafe_async_cache'), ('aiuti/asyncio.py', 'AsyncBackgroundBatcher.__init__')],
-    'bounds': 'quick: 3 batcher calls (keys a,b,a) with gaps 0..14, batch_timeout 3..8, retention_timeout 0..9, batch duration 0..2, (size,concurrency) '
+    'bounds': 'quick: 3 batcher calls (keys a,b,a) with gaps 0..14, batch_timeout 3..8 and the falsy value 0, retention_timeout 0..9, batch duration 0..2, (size,concurrency) '
               'in {(2,1),(1,2)}; buffer programs c-p-c and c-p-wait(cancel=False) with timeout 3..15; 1..3 successive loops with 2 calls each; '
               'thorough: 4 batcher calls, more size/concurrency pairs, longer buffer programs',
     'outside': '2..3 loops used concurrently from different threads (needs Mode T; not built for this property)',
